@@ -81,6 +81,13 @@ def run(chk):
         ds = evallib.gen_draws(rng)
         for v, desc in variants(parts, rng, 3):
             cases.append(("\n".join(parts), v, desc, ds))
+    # class programs: colliding vs all-fresh names of locals/parameters in methods, constructors, functions
+    import scopegen
+    for _ in range(400 if chk.thorough else 70):
+        sp = scopegen.ScopeProgram(rng)
+        ref = sp.reference()
+        for desc, v in sp.variants():
+            cases.append((ref, v, "class program, " + desc, []))
     corpus = [(o["source"], o["variant"], o.get("known"), o.get("draws", [])) for _fn, o in load_corpus("C09") if "variant" in o]
     progs = []
     for o, v, _d, ds in cases:
